@@ -22,7 +22,7 @@ ASSUMPTIONS = [
     "bounded liveness: 'terminates' = returns within a bounded number of scheduler wait steps under every generated completion order",
     "hang verdicts need a structural witness sampled from sys._current_frames(); time alone never decides",
 ]
-BUDGET = {"quick": {"shards": 4, "seconds": 40}, "thorough": {"shards": 16, "seconds": 420}}
+BUDGET = {"quick": {"shards": 8, "seconds": 40}, "thorough": {"shards": 16, "seconds": 420}}
 
 
 def _nt(case: Dict[str, Any], M: Model, stats: List[Dict[str, Any]]) -> bool:
